@@ -270,6 +270,25 @@ def failover_close_audit(res, seed, count):
             break
 
 
+def failover_close_targeted(res):
+    """the histories behind the add_server defect (fixes/0016), spelled out instead of left to the random sequences: a server
+    uses up its retries, recovers just before the call that takes it out of rotation (that call still runs - and succeeds -
+    on the old client object), is revived after dead_timeout (a new client object replaces the old one), then close()"""
+    for nserv in (2, 3):
+        for ra in (1, 2):
+            for ign in (False, True):
+                for pool in (False, True):
+                    for opn in ("get", "set", "get_many", "set_many"):
+                        for closer in ("close", "disconnect_all"):
+                            seq = [("op", opn, 0), ("fail", 0, "refused"), ("op", opn, 0)]
+                            for _ in range(ra):
+                                seq += [("adv", 11), ("op", opn, 0)]
+                            seq += [("ok", 0), ("adv", 11), ("op", opn, 0), ("op", opn, 0), ("adv", 101), ("op", opn, 0), ("op", opn, 1)]
+                            if not _failover_close_case(res, ("failover-close", (nserv, ra, ign, pool, False), seq, closer)):
+                                return
+                            res.count("targeted_failover_close_histories")
+
+
 def _failover_close_case(res, case):
     from checks import c13
     _, cfg, seq, closer = case
@@ -326,6 +345,8 @@ def shard(tier, seed, idx, n):
             continue
         run_group(res, *g, tier, random.Random(seed * 7919 + gi))
     failover_close_audit(res, seed * 977 + idx, 40 if tier == "quick" else 600)
+    if idx == 0:
+        failover_close_targeted(res)
     res.extra["groups_total"] = len(gs) if idx == 0 else 0
     res.extra["exhaustive"] = True
     res.extra["exhaustive_part"] = "depth-1 fault plans for every group; depth-2 plans exhaustive in thorough, sampled (12 per depth-1 plan) in quick"
